@@ -228,7 +228,8 @@ def rule_a(ctx):
     s = analyse_op(ctx, F, rid, send, send, words, cells, opname="send")
     r = analyse_op(ctx, F, rid, recv, body, words, cells, opname="recv")
     # new(): which word is pre-filled
-    fills = [(bb, t, c, w) for (bb, t, c, w) in word_calls(F, new, words) if len(t["args"]) == 2]
+    new_bodies = [new] + [i for i in F.inst if i.kind == "closure" and i.body is not None and i.name.startswith(new.name + "::{closure#")]
+    fills = [(bb, t, c, w) for b in new_bodies for (bb, t, c, w) in word_calls(F, b, words) if len(t["args"]) == 2]
     filled = {w for (_, _, _, w) in fills}
     if s and r:
         ctx.check(filled == {s[1]} and r[1] != s[1] and s[3] == r[1] and r[3] == s[1], rid, "directions",
